@@ -1,14 +1,15 @@
 // C06 implementation driver: same case protocol as ocaml/c06_driver.ml, real library through the
 // session harness, scripted loopback peers speaking plain BT or MSE (harness/common/msepeer.h).
 //
-// Case:  I <hs> <st> <chk> <script>                 incoming connection (peer = MSE initiator / plain)
+// Case:  D <hs> <st> <chk> <scriptA> <scriptB> <order>   two incoming peers; order = string over {A,B}: who sends its next segment
+//        I <hs> <st> <chk> <script>                 incoming connection (peer = MSE initiator / plain)
 //        O <hs> <st> <chk> <plain-script> <mse-script>   outgoing; the script is chosen per attempt by
 //                                                   what the library sends first
 //   hs, st: encryption_mode values 0 deny 1 allow 2 prefer 3 require (handshake / stream)
 //   chk: 1 = the script ends with INTERESTED + HAVE(1); after success the connection must show them
 //   script: "X" (close at once) or phases separated by '/', phase = tok,tok,...@seg
 //     seg: W whole | B byte-wise | a.b.c cut offsets
-//     tok: K key | KL key giving a shared secret with a leading zero byte (outgoing only) | KZ zero key | O<n> opaque clear | R req1 | RX wrong req1 | S<t> obfuscated skey
+//     tok: K key | K13 legal key starting with byte 0x13 | KP<k> 96 bytes starting with the first k bytes of "\x13BitTorrent protocol" | KL key giving a shared secret with a leading zero byte (outgoing only) | KZ zero key | O<n> opaque clear | R req1 | RX wrong req1 | S<t> obfuscated skey
 //          e:<hex> c:<hex> m:<hex>  literal, RC4 / clear / per negotiated mode
 //          eH<t><i><x> cH.. mH..    BT handshake: torrent kind t, id kind i (1 = library's own id), ext bit x
 //          eZ<n> mZ<n>              n zero bytes
@@ -22,6 +23,9 @@
 #include "config.h"
 
 #include <map>
+#include <memory>
+#include <set>
+#include <deque>
 #include <netinet/tcp.h>
 #include <poll.h>
 #include <sys/ioctl.h>
@@ -42,6 +46,8 @@
 #include "protocol/peer_connection_base.h"
 #include "torrent/exceptions.h"
 #include "torrent/peer/connection_list.h"
+#include "torrent/peer/peer.h"
+#include "torrent/peer/peer_info.h"
 #include "torrent/runtime/network_config.h"
 #include "torrent/utils/log.h"
 
@@ -124,7 +130,7 @@ static torrent::Handshake* find_hs(uint16_t port, bool retrying) {
   return nullptr;
 }
 
-static unsigned g_connected = 0;
+static std::set<std::pair<uint32_t, uint16_t>> g_connected;   // remote (address, port) of every connection inserted (ConnectionList::signal_connected)
 static uint64_t g_tx0 = 0;         // WirePeer::tx_total when the current connection was made
 static std::string g_peer_ip_str;  // dotted address of the current case's scripted peer
 static uint16_t g_hs_port = 0;     // remote port of the library-side socket of the current case
@@ -203,6 +209,25 @@ static void wait_accept(Session& S, WirePeer& w) {
     struct pollfd pf{w.lfd, POLLIN, 0};
     ::poll(&pf, 1, 100);
     pump(S, {&w});
+  }
+}
+
+// End of a case, the peer's sockets are closed: step until the library has let go of every socket it
+// had for this peer (otherwise connections pile up on a loaded machine and the download stops dialling
+// out: connection_list()->size() >= min_size()). A socket the library does not react to although its
+// TCP state has left ESTABLISHED (a handshake with no read interest) is left to the timeout below.
+static void drain(Session& S) {
+  int unresponsive = 0;
+  for (int round = 0; round < 20000 && unresponsive < 50; round++) {
+    pump(S, {});
+    S.step();
+    int lfd = lib_fd(S);
+    if (lfd == -1) return;
+    struct tcp_info ti{};
+    socklen_t n = sizeof ti;
+    if (getsockopt(lfd, IPPROTO_TCP, TCP_INFO, &ti, &n) != 0 || ti.tcpi_state != TCP_ESTABLISHED) { unresponsive++; continue; }
+    struct timespec ts{0, 1000000};
+    nanosleep(&ts, nullptr);
   }
 }
 
@@ -286,6 +311,15 @@ struct Conn {
   bool expand(const std::string& t, std::string& out) {
     if (t == "K") { mse = true; out += mseend.pubkey(); return true; }
     if (t == "KZ") { mse = true; out += std::string(96, '\0'); return true; }
+    if (t == "K13") { mse = true; mseend.rekey_first_byte(19, g_case_no); out += mseend.pubkey(); return true; }   // legal key whose first byte is 0x13
+    if (t.size() > 2 && t[0] == 'K' && t[1] == 'P') {   // 96 "key" bytes that begin like the plain handshake (first k bytes)
+      mse = true;
+      size_t k = std::stoul(t.substr(2));
+      std::string key = std::string("\x13" "BitTorrent protocol", 20).substr(0, k) + junk(96 - k);
+      if (k == 0 && (unsigned char)key[0] == 0xff) key[0] = 0x7f;
+      out += key;
+      return true;
+    }
     if (t == "KL") {   // key chosen after seeing the library's: shared secret with a leading zero byte
       mse = true;
       if (w.rx.size() >= 96) mseend.rekey_leading_zero(w.rx.substr(0, 96), g_case_no);
@@ -435,7 +469,7 @@ static std::vector<std::string> segments(const std::string& bytes, const std::st
 // Runs one script on one connection. Returns the per-segment trace; outcome in `result` ("" = still open).
 static std::string run_script(Session& S, Conn& c, const Script& sc, uint16_t hs_port, Torrent* T, std::string& result, bool retrying = false) {
   std::string trace;
-  unsigned conn0 = g_connected;
+  g_connected.erase({g_peer_ip, hs_port});
   auto observe = [&]() -> bool {   // true: handshake over
     torrent::Handshake* h = find_hs(hs_port, retrying);
     if (h != nullptr) {
@@ -445,7 +479,7 @@ static std::string run_script(Session& S, Conn& c, const Script& sc, uint16_t hs
     }
     // outcome without looking at log text or error codes (the property does not constrain them):
     // a connection was inserted into a connection list, or the handshake is simply gone
-    result = g_connected != conn0 ? "ok" : "closed";
+    result = g_connected.count({g_peer_ip, hs_port}) ? "ok" : "closed";
     trace += (trace.empty() ? "" : ",") + result;
     return true;
   };
@@ -507,6 +541,105 @@ static std::string lib_check(Session& S, Conn& c, Torrent* T, uint16_t port, con
   return lib_sees_trail(S, T, port) ? "lib=late" : "lib=bad";
 }
 
+
+// ---- two incoming peers whose segments interleave (case D): each peer is stepped one segment at a time
+struct InRun {
+  Session& S;
+  std::string ip;
+  uint32_t ipn = 0;
+  uint16_t port = 0;
+  WirePeer w;
+  std::unique_ptr<Conn> c;
+  Script sc;
+  size_t phase = 0;
+  std::deque<std::string> pending;
+  bool close_pending = false, closed = false;
+  std::string trace, result;
+
+  InRun(Session& s, const std::string& addr, const std::string& script, uint64_t seed) : S(s), ip(addr), sc(parse_script(script)) {
+    inet_pton(AF_INET, ip.c_str(), &ipn);
+    activate();
+    if (w.connect_to(S.listen_port(), ip.c_str())) {
+      port = w.local_port();
+      activate();
+      qpump(S, w);
+      c.reset(new Conn(S, w, true, seed));
+      g_connected.erase({ipn, port});
+    } else result = "ERR:connect";
+  }
+  void activate() { g_peer_ip = ipn; g_peer_ip_str = ip; g_hs_port = port; g_tx0 = 0; }
+  void observe() {
+    torrent::Handshake* h = find_hs(port, false);
+    if (h != nullptr) {
+      trace += (trace.empty() ? "" : ",") + std::to_string((int)h->state()) + "." + std::to_string(h->m_readBuffer.size_position()) + "." +
+               std::to_string(h->m_readBuffer.size_end());
+      return;
+    }
+    result = g_connected.count({ipn, port}) ? "ok" : "closed";
+    trace += (trace.empty() ? "" : ",") + result;
+  }
+  bool done() const { return closed || !result.empty() && result != "ok" || (pending.empty() && !close_pending && (sc.close_now || phase >= sc.phases.size())); }
+  // one segment (or the close that ends a phase); false: nothing left to do
+  bool step() {
+    if (!c || done()) return false;
+    activate();
+    if (pending.empty() && !close_pending) {
+      auto& ph = sc.phases[phase++];
+      std::string bytes;
+      close_pending = ph.close_after;
+      for (auto& t : ph.toks)
+        if (!c->expand(t, bytes)) { close_pending = true; break; }
+      for (auto& sg : segments(bytes, ph.seg)) pending.push_back(sg);
+    }
+    if (!pending.empty()) {
+      if (w.fd != -1) {
+        w.send_bytes(pending.front());
+        qpump(S, w);
+        c->parse_rx();
+        if (result.empty()) observe();
+      }
+      pending.pop_front();
+      return true;
+    }
+    if (close_pending) {
+      close_pending = false;
+      closed = true;
+      int fd = w.fd;
+      w.fd = -1;
+      if (fd != -1) ::close(fd);
+      wait_close(S, false);
+      if (result.empty()) observe();
+      return true;
+    }
+    return false;
+  }
+  std::string finish(bool chk) {
+    if (!c) return "a1:" + result + " w=- m=- att=1 lib=-";
+    activate();
+    if (result.empty()) result = "open";
+    if (w.fd != -1) qpump(S, w);
+    std::string out = "a1:" + trace + " " + (result == "ok" ? c->summary(T1->info_hash) : std::string("w=- m=-")) + " att=1 " +
+                      lib_check(S, *c, T1, port, result, chk);
+    w.close_all();
+    drain(S);
+    return out;
+  }
+};
+
+static std::string run_dual(Session& S, const std::vector<std::string>& f) {
+  bool chk = f[3] == "1";
+  auto ipof = [](unsigned n) { return "127." + std::to_string(1 + (n >> 16) % 200) + "." + std::to_string((n >> 8) & 255) + "." + std::to_string(1 + (n & 255) % 250); };
+  g_case_no++;
+  InRun A(S, ipof(g_case_no), f[4], g_case_no);
+  g_case_no++;
+  InRun B(S, ipof(g_case_no), f[5], g_case_no);
+  for (char ch : f[6]) (ch == 'A' ? A : B).step();
+  while (A.step()) {}
+  while (B.step()) {}
+  std::string a = A.finish(chk), b = B.finish(chk);
+  return "A[" + a + "] B[" + b + "]";
+}
+
 static std::string run_case(Session& S, const std::string& line) {
   auto f = split_ws(line);
   if (f.size() < 5) return "BADCASE";
@@ -518,6 +651,13 @@ static std::string run_case(Session& S, const std::string& line) {
   torrent::runtime::network_config()->set_encryption_modes((torrent::encryption_mode)hs, (torrent::encryption_mode)st);
   std::string ip = "127." + std::to_string(1 + (g_case_no >> 16) % 200) + "." + std::to_string((g_case_no >> 8) & 255) + "." + std::to_string(1 + (g_case_no & 255) % 250);
   std::string outp;
+  if (f[0] == "D") {
+    if (f.size() < 7) return "BADCASE";
+    outp = run_dual(S, f);
+    S.step();
+    if (S.handshake_count() != 0) S.advance_us(130ll * 1000000);
+    return outp;
+  }
   inet_pton(AF_INET, ip.c_str(), &g_peer_ip);
   g_peer_ip_str = ip;
   if (f[0] == "I") {
@@ -534,7 +674,7 @@ static std::string run_case(Session& S, const std::string& line) {
     qpump(S, w);
     outp = "a1:" + tr + " " + (result == "ok" ? c.summary(T1->info_hash) : std::string("w=- m=-")) + " att=1 " + lib_check(S, c, T1, port, result, chk);
     w.close_all();
-    pump(S, {});
+    drain(S);
   } else if (f[0] == "O") {
     if (f.size() < 6) return "BADCASE";
     Script sp = parse_script(f[4]), sm = parse_script(f[5]);
@@ -581,7 +721,7 @@ static std::string run_case(Session& S, const std::string& line) {
     if (attempts == 0) outp = "a0:noconnect";
     outp += " " + summ + " att=" + std::to_string(attempts) + " " + libs;
     w.close_all();
-    pump(S, {});
+    drain(S);
   } else return "BADCASE";
   S.step();
   { Tm tm(g_t_adv); if (S.handshake_count() != 0) S.advance_us(130ll * 1000000); }
@@ -636,7 +776,10 @@ int main(int argc, char** argv) {
   S.start(T1);
   S.start(T4);
   for (Torrent* T : {T1, T2, T4})
-    T->main()->connection_list()->signal_connected().push_back([](auto*) { g_connected++; });
+    T->main()->connection_list()->signal_connected().push_back([](auto* p) {
+      const sockaddr* sa = p->peer_info()->socket_address();
+      if (sa != nullptr && sa->sa_family == AF_INET) g_connected.insert({((const sockaddr_in*)sa)->sin_addr.s_addr, ntohs(((const sockaddr_in*)sa)->sin_port)});
+    });
   if (getenv("C06_DEBUG")) {
     torrent::log_open_output("c06", [](const char* d, size_t n, int) { g_log.append(d, n); g_log.push_back('\n'); });
     torrent::log_add_group_output(torrent::LOG_CONNECTION_HANDSHAKE, "c06");
